@@ -984,7 +984,7 @@ def dispatch : List DispItem := [
       { value := "doubled_prices_in_country", actions := [.call "set_country_waste_to_doubled_prices"] },
       { value := "baseline_in_country", actions := [.call "set_country_waste_to_baseline_prices"] },
       { value := "tripled_prices_globally", actions := [.call "set_global_waste_to_tripled_prices"] },
-      { value := "doubled_prices_globally", actions := [.call "set_global_waste_to_doubled_prices"] },
+      { value := "doubled_prices_globally", actions := [.call "set_global_waste_to_tripled_prices"] },
       { value := "baseline_globally", actions := [.call "set_global_waste_to_baseline_prices"] }] none,
   .family "nutrition" [
       { value := "baseline", actions := [.call "set_baseline_nutrition_profile"] },
@@ -1054,7 +1054,7 @@ def slaughterColumns : List String := ["chicken_slaughter", "rabbit_slaughter", 
 /-- `animal` column of species_attributes.csv -/
 def speciesNames : List String := ["chicken", "rabbit", "duck", "goose", "turkey", "other_rodents", "pig", "meat_goat", "meat_sheep", "camelids", "meat_cattle", "meat_camel", "meat_buffalo", "mule", "horse", "asses", "milk_sheep", "milk_cattle", "milk_goat", "milk_camel", "milk_buffalo"]
 /-- `animal_populations.main`: `if loaderNeedle in key: table[key.<loaderFunction>(loaderArg)] = value` -/
-def loaderFunction : String := "strip"
+def loaderFunction : String := "removesuffix"
 def loaderNeedle : String := "_head_start"
 def loaderArg : String := "_start"
 
